@@ -313,8 +313,12 @@ class Field(Operator):
                 new_shape = np.ones(len(self.shape), dtype=np.int64)
                 new_shape[self._domain.axes[ind][0]:
                           self._domain.axes[ind][-1]+1] = wgt.shape
-                wgt = wgt.reshape(new_shape)
-                aout *= wgt**power
+                wgt = wgt.reshape(new_shape)**power
+                if not np.can_cast(wgt.dtype, aout.dtype, casting="same_kind"):
+                    # e.g. integer fields: promote the copy instead of failing
+                    # in the in-place product
+                    aout = aout.astype(np.result_type(aout.dtype, wgt.dtype))
+                aout *= wgt
         fct = fct**power
         if fct != 1.:
             aout *= fct
